@@ -105,8 +105,8 @@ Fixpoint topo (g : dg) (l : list nat) : Prop :=
 
 Lemma topo_closed : forall g l, topo g l -> forall v p, In v l -> edge g v p -> In p l.
 Proof.
-  intros g. induction l as [|u r IH]; intros [Hu Hr] v p Hv E; [contradiction|].
-  destruct Hv as [<-|Hv].
+  intros g. induction l as [|u r IH]; intros Ht v p Hv E; [contradiction|].
+  destruct Ht as [Hu Hr]. destruct Hv as [<-|Hv].
   - right. apply Hu. exact E.
   - right. eapply IH; eauto.
 Qed.
@@ -119,8 +119,8 @@ Qed.
 
 Lemma topo_acyclic : forall g l, topo g l -> NoDup l -> forall v, In v l -> ~ on_cycle g v.
 Proof.
-  intros g. induction l as [|u r IH]; intros [Hu Hr] Hnd v Hv; [contradiction|].
-  inversion Hnd as [|? ? Hnin Hnd']; subst.
+  intros g. induction l as [|u r IH]; intros Ht Hnd v Hv; [contradiction|].
+  destruct Ht as [Hu Hr]. inversion Hnd as [|? ? Hnin Hnd']; subst.
   destruct Hv as [<-|Hv].
   - intros [p [E R]]. apply Hnin.
     eapply topo_reach_closed; [exact Hr|exact R|]. apply Hu. exact E.
